@@ -763,6 +763,21 @@ def c07_walltime_tasks():
     return tasks
 
 
+def c07_maxnodes_tasks():
+    """More ready batches than max-nodes allows (2 or 3 of 3-5 single-job batches): later rounds fill up, and the
+    dry-run twin must stop where the real first round stops."""
+    tasks = []
+    for g in ("indep3", "indep4", "wide5", "fork"):
+        bb = S.REP[g]
+        for mx in (2, 3):
+            if mx >= len(bb):
+                continue
+            gkw = dict(size=1, max_nodes=mx)
+            sc = mk_scen(bb, gkw, finish_orders="default")
+            tasks.append(dict(id=f"c07-{g}-sz1-mx{mx}", scen=sc, oracles=["Obs", "C07", "FirstRound"], budget=(0, 0), cls=_cls(bb, gkw)))
+    return tasks
+
+
 def _dry_twin(task, first_round):
     import copy
 
@@ -796,11 +811,13 @@ def c07(tier):
     ns = (1, 2, 3) if tier == "quick" else (1, 2, 3, 4)
     tasks = c07_tasks(ns, tier)
     tasks += c07_walltime_tasks()
+    tasks += c07_maxnodes_tasks()
     tasks += resub_slice_tasks(["C07"], tier, "c07")
     tasks += [t for i, t in enumerate(resub_slice_tasks(["C07"], tier, "c07", with_groups_file=True)) if i % 2 == 0 or tier == "thorough"]
     # dry-run twins: expectation = the first round of the real run (computed by running it)
     step = 3 if tier == "quick" else 2
-    base = [t for i, t in enumerate(tasks) if i % step == 0]
+    # (every scenario with a node limit gets a twin: a dry run must stop at max-nodes batches like the real round)
+    base = [t for i, t in enumerate(tasks) if i % step == 0 or (t["scen"]["groups"][0].get("max_nodes") or 0) >= 2]
     twins = []
     errors = []
     for t, fr in run_pool(_first_round_task, base):
@@ -810,8 +827,8 @@ def c07(tier):
         twins.append(_dry_twin(t, fr))
     tasks = tasks + twins
     bounds = (f"all DAGs on {ns} jobs x (count sizes 1..n | time-based estimates {{1,2}}^n x capacity 2/3 min) x try-add on/off x max-nodes x "
-              f"group assignments (second group with different SLURM fields, processes, distributed/verbose options, prefix; group names listed alphabetically and not); walltimes of minutes, hours and days; resubmission histories (also with a new groups file, -s); every batch of every round of the "
-              f"default schedule with all finish orders; dry-run twin of every {step}rd/nd scenario compared with the real first round")
+              f"group assignments (second group with different SLURM fields, processes, distributed/verbose options, prefix; group names listed alphabetically and not); walltimes of minutes, hours and days; 3-5 single-job batches against max-nodes 2/3; resubmission histories (also with a new groups file, -s); every batch of every round of the "
+              f"default schedule with all finish orders; dry-run twin of every {step}rd/nd scenario and of every scenario with max-nodes >= 2, compared with the real first round")
     return explore_check("C07", tier, tasks, S_RULE + "; C07 evaluates its oracle at every sbatch (all rounds reached) and on the files a dry run leaves",
                          COMMON_ASSUMPTIONS, dict(bounds=bounds, dry_twins=len(twins), dry_twin_errors=errors[:5]))
 
@@ -1324,11 +1341,13 @@ def c08(tier):
         t["scen"]["free_at_poll"] = True
         t["id"] += "-squeue-fault"
         st.append(t)
+    # two-digit batch numbers: results_batch_10.csv, results_batch_11.csv must be collected like the others
+    st += rep_tasks(["C08S"], (0, 0), graphs=["indep11"], params=[("sz1-mx2", dict(size=1, max_nodes=2))], finish_orders="default")
     for t in st:
         t["id"] = "c08s-" + t["id"]
     tasks += st
     bounds += ("; system level: REP graphs with several jobs per batch (processes 1/2) and with failures + cancel flags, real run-jobs processes appending while other nodes' submitter rounds collect, "
-               f"{sb[0]} preemption(s), oracle: every runner row exactly once in the consolidated file and its job reported done; also after one failed status query (squeue down for a whole round)")
+               f"{sb[0]} preemption(s), oracle: every runner row exactly once in the consolidated file and its job reported done; also after one failed status query (squeue down for a whole round); 11 single-job batches (two-digit results file names)")
     return explore_check("C08", tier, tasks, F_RULE + "; the system-level scenarios use the mode-S rule (real CLI processes over the simulated scheduler)", F_ASSUMPTIONS, dict(bounds=bounds))
 
 
